@@ -30,4 +30,5 @@ var All = map[string]func(*Ctx){
 	"C14": C14,
 	"C15": C15,
 	"C16": C16,
+	"C17": C17,
 }
